@@ -1817,6 +1817,44 @@ impl Scenario for FilterWrite {
                 label: format!("link | {} | from pipe | beyond the writer's buffer", if to_file { "to file" } else { "to stdout" }),
             };
         }
+        // a few selected packets and a run of 12 000 .. 20 000 packets of another link behind (or in front of) them:
+        // quick one case, thorough 1 in 5000
+        let long_skip = match tier {
+            Tier::Quick => case == 601,
+            Tier::Thorough => case % 5000 == 601,
+        };
+        if long_skip {
+            let n_few = rng.range(3, 9) as usize;
+            let n_many = rng.range(12_000, 20_000) as usize;
+            let few = gen_arbitrary(&mut rng, n_few, 64, 1);
+            let many = gen_arbitrary(&mut rng, n_many, 0, 1);
+            let a = walk(&few).pkts.first().map(|p| p.rdh.link_id).unwrap_or(1);
+            let b = a.wrapping_add(1 + rng.below(200) as u8);
+            let many = rebuild_stream(&many, &mut |_, r, payload| {
+                r.link_id = b;
+                payload.truncate(16);
+            });
+            let mut input = Vec::new();
+            if rng.chance(1, 2) {
+                input.extend_from_slice(&few);
+                input.extend_from_slice(&many);
+            } else {
+                // (the first packet of the stream decides what the input is taken for: keep a sane one in front)
+                input.extend_from_slice(&few);
+                input.extend_from_slice(&many);
+                input.extend_from_slice(&few);
+            }
+            let to_file = rng.chance(1, 2);
+            let mut base = specgen::spec(pick_input_mode(&mut rng), &[], input);
+            base.step_budget = 5_000_000;
+            base.timeout_ms = 300_000;
+            return Trial::FilterWrite {
+                base,
+                filters: vec![Filter::Link(a).args()],
+                to_file,
+                label: format!("link | {} | a run of more than 12000 skipped packets", if to_file { "to file" } else { "to stdout" }),
+            };
+        }
         let n = packet_count(&mut rng, tier).min(2000);
         let nl = rng.range(1, 6) as usize;
         let mp = *rng.pick(&[0usize, 64, 1000, 10_000]);
@@ -2426,6 +2464,8 @@ fn make_rejected(rng: &mut Rng) -> Trial {
     let input = gen_conforming(&cfg, rng).bytes();
     let combos: Vec<(&str, Vec<&str>)> = vec![
         ("check sanity its-stave", vec!["check", "sanity", "its-stave"]),
+        ("check sanity its-stave with stave filter and period", vec!["check", "sanity", "its-stave", "-s", "L0_1", "-p", "100"]),
+        ("check sanity its with stave filter and period", vec!["check", "sanity", "its", "-s", "L0_1", "-p", "100"]),
         ("-p without stave filter", vec!["check", "all", "its-stave", "-p", "100"]),
         ("-p with target its", vec!["check", "all", "its", "-s", "L0_1", "-p", "100"]),
         ("-p without target", vec!["check", "all", "-s", "L0_1", "-p", "100"]),
@@ -3319,6 +3359,8 @@ fn rdh_identity_edit(r: &mut itsgen::rdh::Rdh, rng: &mut Rng, not_first: bool) {
     match rng.below(7) {
         0 | 1 => r.version = *rng.pick(&[6u8, 7, 5, 8]),
         2 if not_first => r.system_id = *rng.pick(&[0x20u8, 0x21, 0x03, 0x06, 0x4D, 0x00, 0x63, 0xFE]),
+        // (a reserved bit of the FEE ID: another FEE ID as far as dispatching and exact filters are concerned)
+        5 if not_first && rng.chance(1, 2) => r.fee_id |= *rng.pick(&[0x0040u16, 0x0080, 0x0400, 0x0800, 0x8000]),
         2 => r.system_id = *rng.pick(&[0x20u8, 0x21, 0x03, 0x06]),
         3 => r.priority ^= 1,
         4 => r.detector_field ^= 1 << rng.below(32),
@@ -3333,10 +3375,18 @@ fn link_fault(st: &mut Stream, li: usize, rng: &mut Rng) -> &'static str {
         return "none";
     }
     let p = rng.usize_below(n);
-    match rng.below(9) {
+    match rng.below(10) {
         0 if n > 3 => {
             st.links[li].packets.remove(p);
             "packet_loss"
+        }
+        9 if !st.links[li].packets[p].words.is_empty() => {
+            // a payload that ends in more than 15 bytes of 0xFF: a payload error of this link, after which THIS
+            // link's next packet is judged from the initial state - whatever happened on other links before
+            let pk = &mut st.links[li].packets[p];
+            pk.padding = rng.range(16, 40) as usize;
+            pk.fix_sizes();
+            "excess_padding"
         }
         1 => {
             let c = st.links[li].packets[p].clone();
@@ -3633,7 +3683,8 @@ impl Scenario for Isolate {
                     1 if !pk.words.is_empty() => {
                         pk.words[wi].word[9] = *rng.pick(&[0x00u8, 0x29, 0xE0, 0xE4, 0xE8, 0xF0, 0x9A]);
                     }
-                    _ => rdh_identity_edit(&mut pk.rdh, &mut rng, p > 0),
+                    // (fields that leave the packet with its link / FEE ID: the packet must stay A's)
+                    _ => rdh_identity_edit(&mut pk.rdh, &mut rng, false),
                 }
                 let ga: u16 = if stave { st3.links[a].fee_id } else { st3.links[a].link_id as u16 };
                 runs.push((IsoRole::CorruptedOther(ga), mk(st3.bytes(), &[], &mut rng)));
